@@ -34,6 +34,24 @@ type Env struct {
 	where  string
 	// name resolution fallback (loop invariants: source variables)
 	resolve func(name string) (TV, bool)
+	// views: inside the body of a recursive spec function, slice / map parameters are read through the
+	// backing array passed along with them (not through the whole heap)
+	views map[*Term]*paramView
+}
+
+type paramView struct {
+	arr *Term // slice: backing array
+	has *Term // map: key set
+	val *Term // map: values
+}
+
+func (e *Env) viewOf(t *Term) *paramView {
+	for x := e; x != nil; x = x.parent {
+		if pv, ok := x.views[t]; ok {
+			return pv
+		}
+	}
+	return nil
 }
 
 type specErr struct{ msg string }
@@ -79,7 +97,67 @@ func (e *Env) sortOf(t types.Type) string { return e.w.sortOf(t) }
 
 func heapFieldName(s *StructSort, i int) string { return "H." + s.Name + "." + s.Fields[i].Name }
 func heapBoxName(sort string) string             { return "B." + sort }
-func heapSliceName(sort string) string           { return "S." + sort }
+// heapSliceNameT names the heap variable holding the backing arrays of slices with element type t.
+// It is keyed by the Go element type (not the SMT sort): Go's type system keeps []*A and []*B apart.
+func heapSliceNameT(t types.Type) string {
+	if it, ok := t.Underlying().(*types.Interface); ok && it.NumMethods() == 0 {
+		if _, named := t.(*types.Named); !named {
+			return "S.any"
+		}
+	}
+	name := "S." + mangle(shortTypeName(types.TypeString(t, nil)))
+	if gWorld != nil {
+		gWorld.sliceKeyElem[name] = t
+	}
+	return name
+}
+
+var gWorld *World
+
+// heapSortOfName derives the SMT sort of a heap variable from its name (for variables that a loop or
+// callee writes before this function has touched them).
+func (w *World) heapSortOfName(name string) string {
+	if so, ok := w.heapSorts[name]; ok {
+		return so
+	}
+	if so, ok := ghostSorts[name]; ok {
+		return so
+	}
+	switch {
+	case name == "$cnt" || strings.HasPrefix(name, "$fx."):
+		return "Int"
+	case name == "Bld":
+		return arraySort("Int", "String")
+	case strings.HasPrefix(name, "S."):
+		if t, ok := w.sliceKeyElem[name]; ok {
+			return arraySort("Int", arraySort("Int", w.sortOf(t)))
+		}
+	case strings.HasPrefix(name, "B."):
+		return arraySort("Int", strings.TrimPrefix(name, "B."))
+	case strings.HasPrefix(name, "H."):
+		rest := strings.TrimPrefix(name, "H.")
+		if i := strings.Index(rest, "."); i > 0 {
+			if s, ok := w.bySortName[rest[:i]]; ok {
+				if j := s.fieldIndex(rest[i+1:]); j >= 0 {
+					return arraySort("Int", s.Fields[j].Sort)
+				}
+			}
+		}
+	case strings.HasPrefix(name, "M."):
+		parts := strings.Split(strings.TrimPrefix(name, "M."), ".")
+		if len(parts) == 3 {
+			if parts[2] == "has" {
+				return arraySort("Int", arraySort(parts[0], "Bool"))
+			}
+			return arraySort("Int", arraySort(parts[0], parts[1]))
+		}
+	case strings.HasPrefix(name, "G."):
+		if so, ok := w.globalSorts[name]; ok {
+			return so
+		}
+	}
+	return ""
+}
 
 func (e *Env) heap(h HeapView, name, sort string) *Term {
 	if old, ok := e.w.heapSorts[name]; ok && old != sort {
@@ -117,8 +195,12 @@ func (e *Env) loadPtr(h HeapView, ref *Term, pointee types.Type) *Term {
 	return Select(e.heap(h, heapBoxName(so), arraySort("Int", so)), ref)
 }
 
-func (e *Env) sliceElem(h HeapView, sl *Term, idx *Term, elemSort string) *Term {
-	arr := Select(e.heap(h, heapSliceName(elemSort), arraySort("Int", arraySort("Int", elemSort))), A("s_base", sl))
+func (e *Env) sliceElem(h HeapView, sl *Term, idx *Term, elemT types.Type) *Term {
+	elemSort := e.sortOf(elemT)
+	if pv := e.viewOf(sl); pv != nil && pv.arr != nil {
+		return Select(pv.arr, Sidx(A("s_off", sl), idx))
+	}
+	arr := Select(e.heap(h, heapSliceNameT(elemT), arraySort("Int", arraySort("Int", elemSort))), A("s_base", sl))
 	return Select(arr, Sidx(A("s_off", sl), idx))
 }
 
@@ -491,8 +573,7 @@ func (e *Env) trIndex(n *ast.IndexExpr) TV {
 	i := e.tr(n.Index)
 	switch u := v.Ty.Underlying().(type) {
 	case *types.Slice:
-		es := e.sortOf(u.Elem())
-		return TV{e.sliceElem(e.state, v.T, i.T, es), u.Elem()}
+		return TV{e.sliceElem(e.state, v.T, i.T, u.Elem()), u.Elem()}
 	case *types.Basic:
 		if u.Info()&types.IsString != 0 {
 			return TV{A("str.to_code", A("str.at", v.T, i.T)), types.Typ[types.Byte]}
@@ -504,6 +585,9 @@ func (e *Env) trIndex(n *ast.IndexExpr) TV {
 			}
 		}
 		ks, vs := e.sortOf(u.Key()), e.sortOf(u.Elem())
+		if pv := e.viewOf(v.T); pv != nil && pv.val != nil {
+			return TV{Select(pv.val, i.T), u.Elem()}
+		}
 		val := e.heap(e.state, "M."+ks+"."+vs+".val", arraySort("Int", arraySort(ks, vs)))
 		return TV{Select(Select(val, v.T), i.T), u.Elem()}
 	}
@@ -758,6 +842,19 @@ func (e *Env) trCall(n *ast.CallExpr) TV {
 	case "box":
 		v := arg(0)
 		return TV{e.w.box(v.T, v.Ty), tyAny}
+	case "sameOld":
+		// sameOld(x): the backing arrays (of x's element sort) that existed at function entry are unchanged
+		v := arg(0)
+		stp, ok := v.Ty.Underlying().(*types.Slice)
+		if !ok || e.old == nil {
+			e.fail("sameOld(slice) expected, in a context with an old state")
+		}
+		es := e.sortOf(stp.Elem())
+		so := arraySort("Int", arraySort("Int", es))
+		now, before := e.heap(e.state, heapSliceNameT(stp.Elem()), so), e.heap(e.old, heapSliceNameT(stp.Elem()), so)
+		q := Leaf("q_so_" + strconv.Itoa(e.w.fresh()))
+		return TV{A("forall", A("(("+q.Op+" Int))"), A("!", Implies(And(Le(IntLit(1), q), Lt(q, e.heap(e.old, "$cnt", "Int"))),
+			Eq(Select(now, q), Select(before, q))), Leaf(":pattern"), A("", Select(now, q)))), tyBool}
 	case "has":
 		// has(m, k): map membership
 		m := arg(0)
@@ -766,6 +863,9 @@ func (e *Env) trCall(n *ast.CallExpr) TV {
 			e.fail("has() of non-map")
 		}
 		ks, vs := e.sortOf(mt.Key()), e.sortOf(mt.Elem())
+		if pv := e.viewOf(m.T); pv != nil && pv.has != nil {
+			return TV{And(Not(Eq(m.T, IntLit(0))), Select(pv.has, e.coerce(arg(1), mt.Key()))), tyBool}
+		}
 		hasArr := e.heap(e.state, "M."+ks+"."+vs+".has", arraySort("Int", arraySort(ks, "Bool")))
 		return TV{And(Not(Eq(m.T, IntLit(0))), Select(Select(hasArr, m.T), e.coerce(arg(1), mt.Key()))), tyBool}
 	case "keysAre":
@@ -786,7 +886,7 @@ func (e *Env) trCall(n *ast.CallExpr) TV {
 		// sprintf(format, args): the uninterpreted formatting function (bridged to the verb-by-verb
 		// expansion at call sites with a constant format string)
 		f := e.w.ufunc("sprintfU", []string{"String", "Slice", arraySort("Int", "Any")}, "String")
-		h := e.heap(e.state, heapSliceName("Any"), arraySort("Int", arraySort("Int", "Any")))
+		h := e.heap(e.state, "S.any", arraySort("Int", arraySort("Int", "Any")))
 		sl := arg(1).T
 		return TV{A(f, arg(0).T, sl, Select(h, A("s_base", sl))), tyString}
 	case "refOf":
@@ -930,6 +1030,21 @@ func (e *Env) applySpec(sf *SpecFunc, args []TV) TV {
 		for _, h := range sf.Reads {
 			e.heap(e.state, h, e.w.heapSorts[h])
 		}
+		for i, p := range sf.Params {
+			switch u := p.Type.Underlying().(type) {
+			case *types.Slice:
+				if pv := e.viewOf(args[i].T); pv == nil || pv.arr == nil {
+					es := e.sortOf(u.Elem())
+					e.heap(e.state, heapSliceNameT(u.Elem()), arraySort("Int", arraySort("Int", es)))
+				}
+			case *types.Map:
+				if pv := e.viewOf(args[i].T); pv == nil || pv.has == nil {
+					ks, vs := e.sortOf(u.Key()), e.sortOf(u.Elem())
+					e.heap(e.state, "M."+ks+"."+vs+".has", arraySort("Int", arraySort(ks, "Bool")))
+					e.heap(e.state, "M."+ks+"."+vs+".val", arraySort("Int", arraySort(ks, vs)))
+				}
+			}
+		}
 		return TV{Leaf("DISCOVERY"), sf.Result}
 	}
 	e.w.ensureReads()
@@ -938,6 +1053,30 @@ func (e *Env) applySpec(sf *SpecFunc, args []TV) TV {
 	for i, p := range sf.Params {
 		argSorts = append(argSorts, e.sortOf(p.Type))
 		all = append(all, coerced[i])
+	}
+	// views of slice / map parameters
+	for i, p := range sf.Params {
+		switch u := p.Type.Underlying().(type) {
+		case *types.Slice:
+			es := e.sortOf(u.Elem())
+			argSorts = append(argSorts, arraySort("Int", es))
+			if pv := e.viewOf(args[i].T); pv != nil && pv.arr != nil {
+				all = append(all, pv.arr)
+			} else {
+				h := e.heap(e.state, heapSliceNameT(u.Elem()), arraySort("Int", arraySort("Int", es)))
+				all = append(all, Select(h, A("s_base", coerced[i])))
+			}
+		case *types.Map:
+			ks, vs := e.sortOf(u.Key()), e.sortOf(u.Elem())
+			argSorts = append(argSorts, arraySort(ks, "Bool"), arraySort(ks, vs))
+			if pv := e.viewOf(args[i].T); pv != nil && pv.has != nil {
+				all = append(all, pv.has, pv.val)
+			} else {
+				hh := e.heap(e.state, "M."+ks+"."+vs+".has", arraySort("Int", arraySort(ks, "Bool")))
+				hv := e.heap(e.state, "M."+ks+"."+vs+".val", arraySort("Int", arraySort(ks, vs)))
+				all = append(all, Select(hh, coerced[i]), Select(hv, coerced[i]))
+			}
+		}
 	}
 	for _, h := range sf.Reads {
 		so := e.w.heapSorts[h]
@@ -949,6 +1088,41 @@ func (e *Env) applySpec(sf *SpecFunc, args []TV) TV {
 		return TV{Leaf(name), sf.Result}
 	}
 	return TV{A(name, all...), sf.Result}
+}
+
+// bindSpecParams binds the parameters of a recursive spec function for unfolding / discovery: params to
+// the given terms, slice and map parameters additionally to their views.  It returns the number of
+// argument terms consumed.
+func (w *World) bindSpecParams(env *Env, sf *SpecFunc, args []*Term) int {
+	env.views = map[*Term]*paramView{}
+	n := len(sf.Params)
+	get := func(i int) *Term {
+		if args == nil {
+			return Leaf(fmt.Sprintf("VIEW_%d", i))
+		}
+		return args[i]
+	}
+	for i, p := range sf.Params {
+		var t *Term
+		if args == nil {
+			t = Leaf("p_" + p.Name)
+		} else {
+			t = args[i]
+		}
+		env.vars[p.Name] = TV{t, p.Type}
+	}
+	for _, p := range sf.Params {
+		t := env.vars[p.Name].T
+		switch p.Type.Underlying().(type) {
+		case *types.Slice:
+			env.views[t] = &paramView{arr: get(n)}
+			n++
+		case *types.Map:
+			env.views[t] = &paramView{has: get(n), val: get(n + 1)}
+			n += 2
+		}
+	}
+	return n
 }
 
 // fixedHeap is a HeapView over a fixed map (used when unfolding spec applications).
@@ -992,9 +1166,7 @@ func (w *World) ensureReads() {
 			}
 			fh := &fixedHeap{m: map[string]*Term{}, reads: map[string]string{}, w: w}
 			env := &Env{w: w, vars: map[string]TV{}, state: fh, scope: sf.Scope, where: "spec " + sf.Name}
-			for _, p := range sf.Params {
-				env.vars[p.Name] = TV{Leaf("p_" + p.Name), p.Type}
-			}
+			w.bindSpecParams(env, sf, nil)
 			func() {
 				defer func() {
 					if r := recover(); r != nil {
